@@ -174,9 +174,9 @@ def from_json_string(json_string, convert=False, encryption_key=None, ignore_unk
     if convert and isinstance(net, pandapipesNet):
         convert_format(net)
     elif convert and isinstance(net, MultiNet):
-        for n in net['nets']:
+        for n in net['nets'].values():
             if isinstance(n, pandapipesNet):
-                convert_format(net)
+                convert_format(n)
             elif isinstance(n, pandapowerNet):
-                convert_format_pandapower(net)
+                convert_format_pandapower(n)
     return net
